@@ -173,3 +173,7 @@ func StepLimit(n int) {}
 
 // Symbolic reports whether the harness runs under the symbolic engine.
 func Symbolic() bool { return false }
+
+// Ghost names a derived condition so that known-finding predicates
+// (/verif/known_findings.json) can refer to it. No effect natively.
+func Ghost(name string, cond bool) {}
